@@ -35,12 +35,22 @@ fn window_sum(evs: &[Ev], now: u64, res: Option<usize>, kind: u8, rt: bool) -> u
     s
 }
 
-/// shape: p0 = op count, p1 = 1 if a flow rule (threshold symbolic) is loaded on r0 (2: a throttling rule, so that entries queue), p2 = isolation threshold on r1 (0 = none)
+/// shape: p0 = op count, p1 = 1 if a flow rule (threshold symbolic) is loaded on r0 (2: a throttling rule, so that entries queue;
+/// 3: a system rule instead, so that inbound entries are rejected by the system slot), p2 = isolation threshold on r1 (0 = none)
 pub fn c04_accounting(s: Shape) {
     let ops = s.p[0] as usize;
     let names = [String::from("c04-in"), String::from("c04-out")];
     let mut t = vrt::any_u64("t0", T0 + 9000, T0 + 9499);
     clock::arm(t * 1_000_000);
+    if s.p[1] == 3 {
+        // a system rule (at most one inbound entry in flight): inbound entries are rejected by the system slot
+        sentinel_core::system::load_rules(crate::util::vec1(Arc::new(sentinel_core::system::Rule {
+            id: "s".into(),
+            metric_type: sentinel_core::system::MetricType::Concurrency,
+            threshold: 1.0,
+            strategy: sentinel_core::system::AdaptiveStrategy::NoAdaptive,
+        })));
+    }
     let thr = if s.p[1] == 2 {
         // a throttling rule (10 per second, queueing up to 500 ms): entries that are made to wait are passes too
         flow::load_rules(crate::util::vec1(Arc::new(flow::Rule {
@@ -52,7 +62,7 @@ pub fn c04_accounting(s: Shape) {
             ..Default::default()
         })));
         10
-    } else if s.p[1] != 0 {
+    } else if s.p[1] == 1 {
         let thr = vrt::any_u64("thr", 0, 4);
         flow::load_rules(crate::util::vec1(Arc::new(flow::Rule {
             id: "f".into(),
